@@ -18,6 +18,7 @@ RULE = (
     "the frame is fed to a tracker that already holds at least one track (so matching runs); distinct = distinct (config, canonical state, event)"
 )
 ASSUMPTIONS = [
+    "detections may have one node or every node missing (NaN) in the dedicated jobs (quick: K=2 depth 3; thorough: K=2 depth 4)",
     "animals sit at fixed, well separated positions (no drift) so that the canonical state is small; identity questions are C10's",
     "canonical-state merging assumes the next track() reads only tracker_queue, current_tracks and the new detections; validated in-run on a 1-in-53 subset of merged pairs (both representatives extended by every event must agree) and by replaying a 1-in-11 subset of histories on fresh trackers",
     "bounds: quick depth 4, K=3, window 2, threshold 0, 12 method x matcher x feature configurations; thorough depth 5 (K=3) and depth 6 (K=2) over 72 configurations x reductions {mean,max} incl. low-score detections against threshold 0.5",
@@ -25,11 +26,11 @@ ASSUMPTIONS = [
 ]
 
 
-def explore(part, cfg, k, depth, low):
-    events = T.frame_events(k, low_score=low)
+def explore(part, cfg, k, depth, low, nan=False):
+    events = T.frame_events(k, low_score=low, nan_marks=nan)
     cfgkey = core.digest(cfg)
     root = T.new_tracker(cfg)
-    seen = {T.canon(root): ([], root)}
+    seen = {T.canon(root, with_nan=nan): ([], root)}
     frontier = [([], root)]
     merged = 0
     nstates = 1
@@ -49,10 +50,10 @@ def explore(part, cfg, k, depth, low):
                     continue
                 obs = T.observe(ev, out)
                 part.outcome(repr((obs, len(ev))))
-                c = T.canon(t2)
+                c = T.canon(t2, with_nan=nan)
                 key = f"{cfgkey}:{c}"
                 if had_tracks and ev:
-                    part.nontriv(f"{cfgkey}:{T.canon(trk)}:{ev}")
+                    part.nontriv(f"{cfgkey}:{T.canon(trk, with_nan=nan)}:{ev}")
                 part.sample(case, had_tracks and len(ev) > 1)
                 if c in seen:
                     merged += 1
@@ -64,7 +65,7 @@ def explore(part, cfg, k, depth, low):
                             _, oa, ea = T.step(a, ev2, frame_idx=len(h2))
                             _, ob, eb = T.step(b, ev2, frame_idx=len(h2))
                             part.add("merge_validations")
-                            if (ea is None) != (eb is None) or T.observe(ev2, oa) != T.observe(ev2, ob) or T.canon(a) != T.canon(b):
+                            if (ea is None) != (eb is None) or T.observe(ev2, oa) != T.observe(ev2, ob) or T.canon(a, with_nan=nan) != T.canon(b, with_nan=nan):
                                 part.violation(
                                     {"harness": "merge", "cfg": cfg, "h1": rep_hist, "h2": h2, "ev": ev2},
                                     f"HARNESS: canonical-state merge is unsound: histories {rep_hist} and {h2} share a canonical state but diverge on {ev2}",
@@ -79,7 +80,7 @@ def explore(part, cfg, k, depth, low):
                     for i, e in enumerate(h2):
                         T.step(fresh, e, frame_idx=i)
                     part.add("replay_crosschecks")
-                    if T.canon(fresh) != c:
+                    if T.canon(fresh, with_nan=nan) != c:
                         part.violation(
                             {"harness": "replay", "cfg": cfg, "history": h2},
                             f"HARNESS: state reached through deepcopy chain differs from replay on a fresh tracker for {h2}",
@@ -91,8 +92,8 @@ def explore(part, cfg, k, depth, low):
 
 
 def work(part, shard):
-    for cfg, k, depth, low in shard:
-        explore(part, cfg, k, depth, low)
+    for job in shard:
+        explore(part, *job)
 
 
 def run(ctx):
@@ -100,11 +101,14 @@ def run(ctx):
     if ctx.tier == "quick":
         cfgs = T.all_configs(windows=[2], thresholds=[0.0])
         jobs = [(c, 3, 4, False) for c in cfgs]
+        jobs += [(c, 2, 3, False, True) for c in cfgs]  # + detections with one / all nodes missing
         ctx.bounds = {"depth": 4, "K": 3, "configs": len(cfgs), "events_per_frame": 16}
     else:
         cfgs = T.all_configs(windows=[1, 2, 3], thresholds=[0.0, 0.5], reductions=("mean", "max"))
         jobs = [(c, 3, 5, c["instance_score_threshold"] > 0) for c in cfgs]
         jobs += [(c, 2, 6, c["instance_score_threshold"] > 0) for c in cfgs]
+        # detections with missing nodes: one node NaN ('p') or every node NaN ('n')
+        jobs += [(c, 2, 4, False, True) for c in cfgs if c["instance_score_threshold"] == 0]
         ctx.bounds = {"depth_K3": 5, "depth_K2": 6, "configs": len(cfgs), "events_per_frame": "16 (49 with low-score marks when threshold 0.5)"}
     jobs = core.rotate(jobs, ctx.seed)
     core.pmap(ctx, work, [[j] for j in jobs])
